@@ -456,8 +456,64 @@ fn helpers_unparseable(t: &mut Tally) {
     }
 }
 
+/// The helpers take name-value items only: a word or a list is refused with a span inside the
+/// item, alone or as a list member, exactly as the Expr target refuses it.
+fn helpers_other_forms(t: &mut Tally) {
+    use darling::util::parse_expr::{parse_str_literal, preserve_str_literal};
+    use syn::spanned::Spanned;
+    for src in ["v", "v()", "v(a)", "v(a = 1, b)", "v(\"s\")", "a::v", "v(1 + 2)"] {
+        for m in [meta_lone(src), meta_in_list(src)].into_iter().flatten() {
+            let item = vrt::spans::cols(m.span());
+            for (name, r) in [("preserve_str_literal", preserve_str_literal(&m)), ("parse_str_literal", parse_str_literal(&m)), ("syn::Expr", <syn::Expr as FromMeta>::from_meta(&m))] {
+                t.evaluations += 1;
+                t.nontrivial += 1;
+                t.hit("helpers_other_forms");
+                let complaint = match r {
+                    Ok(e) => Some(format!("accepted as `{}`", e.to_token_stream())),
+                    Err(e) => match (e.explicit_span().and_then(vrt::spans::cols), item) {
+                        (None, _) => Some(format!("refused without a span (`{e}`)")),
+                        (Some(s), Some(i)) if !vrt::spans::within(s, i) => Some(format!("refused with span {s:?}, the item is at {i:?}")),
+                        _ => None,
+                    },
+                };
+                if let Some(c) = complaint {
+                    t.violate(Violation { key: format!("C13 helper {name} `{src}` :: {c}"), what: format!("{name} <- `{src}` (not a name-value item): {c}"), case: json!({"fragment": src}), detail: json!({}) });
+                }
+            }
+        }
+    }
+    vrt::spans::reset();
+}
+
 /// List-form targets: PathList, Vec<Lit*>, Meta.
 fn list_forms(t: &mut Tally) {
+    // literal lists: members are kept as written, negative numbers included, in every position
+    fn lits<T: ToTokens>(name: &str, src: &str, want: &[&str], t: &mut Tally)
+    where
+        Vec<T>: FromMeta,
+    {
+        let m = meta_lone(src).unwrap();
+        t.evaluations += 1;
+        t.hit("list_forms_checked");
+        match catch(std::panic::AssertUnwindSafe(|| <Vec<T>>::from_meta(&m))) {
+            Ok(Ok(v)) => {
+                let got: Vec<String> = v.iter().map(|x| squash(x.to_token_stream().to_string())).collect();
+                if got != want {
+                    t.violate(Violation { key: format!("C13 Vec<{name}> `{src}` :: {got:?}"), what: format!("Vec<{name}> <- `{src}`: {got:?}, expected {want:?}"), case: json!({}), detail: json!({}) });
+                }
+            }
+            Ok(Err(e)) => t.violate(Violation { key: format!("C13 Vec<{name}> `{src}` rejected"), what: format!("Vec<{name}> <- `{src}` rejected: {e}"), case: json!({}), detail: json!({}) }),
+            Err(p) => t.violate(Violation { key: format!("C13 Vec<{name}> `{src}` panicked"), what: format!("Vec<{name}> <- `{src}` panicked: {p}"), case: json!({}), detail: json!({}) }),
+        }
+    }
+    lits::<syn::LitInt>("LitInt", "v(-1, 2)", &["-1", "2"], t);
+    lits::<syn::LitInt>("LitInt", "v(1, -0x2, -3u8)", &["1", "-0x2", "-3u8"], t);
+    lits::<syn::LitInt>("LitInt", "v(-1)", &["-1"], t);
+    lits::<syn::LitInt>("LitInt", "v(-1,)", &["-1"], t);
+    lits::<syn::LitFloat>("LitFloat", "v(-1.5, 2.0, -3e2)", &["-1.5", "2.0", "-3e2"], t);
+    lits::<syn::LitFloat>("LitFloat", "v(1.5)", &["1.5"], t);
+    lits::<syn::LitStr>("LitStr", "v(\"a\", \"-1\")", &["\"a\"", "\"-1\""], t);
+    lits::<syn::LitBool>("LitBool", "v(true, false,)", &["true", "false"], t);
     let cases: Vec<(&str, Vec<&str>)> = vec![("v(a, b::c, ::d)", vec!["a", "b :: c", ":: d"]), ("v()", vec![]), ("v(a)", vec!["a"]), ("v(::a::b, r#type::c, crate::d, self)", vec![":: a :: b", "r#type :: c", "crate :: d", "self"])];
     for (src, want) in cases {
         let m = meta_lone(src).unwrap();
@@ -538,6 +594,7 @@ pub fn main(args: &Args) {
     }
     helpers(&frags, &mut t);
     helpers_unparseable(&mut t);
+    helpers_other_forms(&mut t);
     list_forms(&mut t);
     rep.absorb(t);
     rep.set("targets", json!(tgs.len()));
